@@ -542,6 +542,9 @@ func TestCheck(t *testing.T) {
 			}
 			for _, d := range ds {
 				for e := range ents {
+					if len(hl.data) > 1<<20 && e == 2 {
+						continue // 7-byte reads over megabytes only repeat what the in-memory entries show, slowly
+					}
 					for _, simple := range []bool{false, true} {
 						one(c, job{data: hl.data, simple: simple, dest: d, entry: e, kind: "io"}, ents, false)
 						one(c, job{data: hl.data, simple: simple, dest: d, entry: e, kind: "io"}, ents, true)
